@@ -112,6 +112,10 @@ let handle (pl : string) : string =
     let sc = ints sched in
     let ns = List.length (List.filter (fun c -> c >= 1000) sc) in
     result ("futasg" ^ ty) (let ((st, evs), oc) = run p fuel init_fut_asg (nat_list sc) O [] [] in (st, evs, oc)) ns
+  | ["futpoll"; ty; k; sched] when ty = "int" || ty = "void" ->
+    let sc = ints sched in
+    let ns = List.length (List.filter (fun c -> c >= 1000) sc) in
+    result ("futpoll" ^ ty ^ ":k" ^ k) (let ((st, evs), oc) = run p2 fuel (init_fut_poll (nat_of_int (ios k))) (nat_list sc) O [] [] in (st, evs, oc)) ns
   | ["periodic"; sched] ->
     let sc = ints sched in
     let ns = List.length (List.filter (fun c -> c >= 1000) sc) in
